@@ -31,8 +31,7 @@ BOUNDS = {
 OUTSIDE = ('from_full, canonical_form_finite/infinite, from_Bflat with chi>1, from_singlets, from_product_mps_covering, '
            'from_random_unitary_evolution, from_desired_bond_dimension (chains of factorisations / LAPACK / ARPACK); norm_test; '
            'entropies of non-diagonal (mixer) S; whether the stored S are the true Schmidt values (needs canonical form); '
-           'entanglement_entropy_segment: that LAPACK eigvalsh returns the eigenvalues of the matrix it is given (contract stub), segments on '
-           'charge-conserving chains (several eigvalsh blocks), entanglement_entropy_segment2, mutinf_two_site')
+           'entanglement_entropy_segment: that LAPACK eigvalsh returns the eigenvalues of the matrix it is given (contract stub), entanglement_entropy_segment2, mutinf_two_site')
 STUBS = ['BLAS contract stub', 'numpy facade for tenpy.networks.mps, tenpy.tools.math (dtype widening, log -> monotone UF)',
          'Array.conj hook', 'QTYPE=object (symbolic target charge in gauge_total_charge cases)',
          'np.linalg.eigvalsh contract stub (entropy.segment cases only: fresh real eigenvalues, ascending, same matrix -> same eigenvalues)']
@@ -365,9 +364,9 @@ def entropy_case(ctx, **p):
 
         def rec(a, *args, **kw):
             w = orig(a, *args, **kw)
-            ctx.assume(w[-1] > 1.e-30)  # the state is not the zero vector (eigvalsh: ascending)
+            ctx.assume(ctx.Or(*[x > 1.e-30 for x in w]))  # the state is not the zero vector
             kept = [x for x in w if bool(x > 1.e-30)]  # the documented stability cut of tools.math.entropy (forks per eigenvalue)
-            calls.append((a.to_ndarray(), kept))
+            calls.append((a.split_legs().to_ndarray(), kept))  # split_legs undoes the charge sorting of the combined legs
             return w
 
         M.npc.eigvalsh = rec
@@ -387,14 +386,17 @@ def entropy_case(ctx, **p):
         keep = [1 + j for j in seg]
         drop = [0] + [1 + j for j in range(width) if j not in seg] + [width + 1]
         own = np.tensordot(th, th.conj(), axes=(drop, drop))
-        d = int(np.prod([th.shape[k] for k in keep]))
-        ctx.prove_eq(rho, own.reshape(d, d), 'matrix diagonalised by entanglement_entropy_segment == own partial trace of theta theta^dagger')
+        ctx.prove_eq(rho, own, 'matrix diagonalised by entanglement_entropy_segment == own partial trace of theta theta^dagger')
         if n == 1:
             tot = 0
             for x in w:
                 tot = tot - _log(ctx, x) * x
         elif n == np.inf:
-            tot = -_log(ctx, w[-1])  # eigvalsh: ascending
+            big = w[0]  # largest kept eigenvalue (per charge block ascending, blocks concatenated: forks on the order)
+            for x in w[1:]:
+                if bool(x > big):
+                    big = x
+            tot = -_log(ctx, big)
         else:
             tot = 0
             for x in w:
@@ -571,8 +573,11 @@ def CASES(tier, seed):
         add(f'entropy.renyi2[{gn}]', 'entropy_case', mode='renyi', n=2, **g)
         add(f'entropy.renyi0.5[{gn}]', 'entropy_case', mode='renyi', n=0.5, **g)
         add(f'entropy.spectrum[{gn}]', 'entropy_case', mode='spectrum', **g)
-        if g['kind'] in ('spin', 'ferm'):  # charge-free: one eigvalsh block
-            for seg, n in (([0], 2), ([0, 1], 1)) + ((([0, 2], 0.5), ([0], np.inf)) if thorough or g['bc'] == 'infinite' else ()):
+        if True:  # charge-free chains: one eigvalsh block; conserving chains: one block per charge sector of the segment
+            segs = (([0], 2), ([0, 1], 1)) + ((([0, 2], 0.5), ([0], np.inf)) if thorough or g['bc'] == 'infinite' else ())
+            if g['kind'] not in ('spin', 'ferm'):
+                segs = (([0, 1], 2), ([0], np.inf)) + ((([0, 2], 1), ) if thorough else ())
+            for seg, n in segs:
                 if g['bc'] != 'infinite' and seg[-1] >= L:
                     continue
                 add(f"entropy.segment[{'+'.join(map(str, seg))},n={n}][{gn}]", 'entropy_case', mode='segment', segment=seg, n=n, **g)
